@@ -204,11 +204,39 @@ def under_tween_factory(handler, registry):
     return under_tween
 
 
-def transparent_decorator(view):
-    def decorated(context, request):
-        resp = view(context, request)
-        return resp
-    return decorated
+def make_decorator(world, tag):
+    """a `decorator=`: user code of the view that runs when the derived view is called, before the inner view"""
+    def decorator(view):
+        def decorated(context, request):
+            world.log.append(['d', tag, ctx_id(context)])
+            return view(context, request)
+        return decorated
+    return decorator
+
+
+BUILTIN_DERIVERS = ['secured_view', 'csrf_view', 'owrapped_view', 'http_cached_view', 'decorated_view', 'rendered_view', 'mapped_view']
+# re-placing a built-in deriver re-places, with it, the built-ins the documented chain hangs below it (audited table;
+# `secured_outermost_under_replacement` decides it on the hints the running code records)
+MOVED_WITH = {'csrf_view': [], 'mapped_view': [], 'rendered_view': [], 'decorated_view': ['rendered_view'],
+              'http_cached_view': ['decorated_view', 'rendered_view'],
+              'owrapped_view': ['http_cached_view', 'decorated_view', 'rendered_view']}
+
+
+def hint_value(h):
+    from pyramid.viewderivers import INGRESS, VIEW
+    return {'INGRESS': INGRESS, 'VIEW': VIEW}.get(h, h)
+
+
+def make_deriver(st):
+    import pyramid.viewderivers as vd
+    if st.get('impl') == 'real' and st['name'] in BUILTIN_DERIVERS:
+        return getattr(vd, st['name'])
+
+    def transparent(view, info):
+        return view
+    if st['name'] in BUILTIN_DERIVERS:
+        transparent.options = getattr(getattr(vd, st['name']), 'options', ())
+    return transparent
 
 
 def req_ctx(request):
@@ -446,6 +474,13 @@ def apply_stmt(config, world, st, module_name):
             config.add_route('r1', '/r1*traverse')
         else:
             config.add_route('r2', '/r2*traverse', use_global_views=True)
+    elif k == 'deriver':
+        kw = {}
+        if st.get('under') is not None:
+            kw['under'] = hint_value(st['under'])
+        if st.get('over') is not None:
+            kw['over'] = hint_value(st['over'])
+        config.add_view_deriver(make_deriver(st), name=st['name'], **kw)
     elif k == 'view':
         v = st
         d = v.get('dir', 'view')
@@ -464,7 +499,7 @@ def apply_stmt(config, world, st, module_name):
         if v.get('renderer'):
             kw['renderer'] = v['renderer']
         if v.get('decorator'):
-            kw['decorator'] = transparent_decorator
+            kw['decorator'] = make_decorator(world, v['tag'])
         if v.get('wrapper'):
             kw['wrapper'] = v['wrapper']
         if v.get('route'):
@@ -622,6 +657,8 @@ def run_impl(case, module_name='harness_c05'):
     res['excsro'] = {str(k): sro_ids(providedBy(cls())) for k, cls in
                      ((11, E1), (12, E2), (13, HTTPForbidden), (14, HTTPNotFound), (17, ValueError))}
     res['excsro'][str(K_PM)] = sro_ids(providedBy(PredicateMismatch('x')))
+    from pyramid.interfaces import IViewDerivers
+    res['sorted'] = [n for n, _ in reg.getUtility(IViewDerivers).sorted()]
     return res
 
 
@@ -680,7 +717,7 @@ def view_json(v, orders):
             'order': orders.get(str(v['tag']), orders.get(v['tag'], MAX_ORDER)),
             'preds': sorted(PRED_IDS[p] for p in v.get('preds', [])),
             'wrapper': NAME_IDS[v['wrapper']] if v.get('wrapper') else None,
-            'act': ACT_IDS[v.get('act', 'ok')],
+            'act': ACT_IDS[v.get('act', 'ok')], 'deco': bool(v.get('decorator')) and v.get('dir') != 'static',
             'vdown': vd_json(v, 'own'), 'vdbase': vd_json(v, 'base')}
 
 
@@ -699,11 +736,22 @@ def model_case(case, impl):
             stmts.append({'k': 'defperm', 'perm': perm_json(st['perm'])})
         elif k == 'route':
             stmts.append({'k': 'other', 'phase': -10})
+        elif k == 'deriver':
+            stmts.append({'k': 'other', 'phase': -20})
         else:
             stmts.append(view_json(st, impl['orders']))
     req = dict(impl['req'])
     req['preds'] = sorted(PRED_IDS[p] for p in req.get('preds', []))
-    return {'pre': [DEFAULT_EXC_VIEW], 'stmts': stmts, 'deny': [list(x) for x in case.get('deny', [])],
+    ops, transparent = [], set()
+    for st in case['stmts']:
+        if st['k'] == 'deriver':
+            ops.append({'name': st['name'], 'under': None if st.get('under') is None else [st['under']],
+                        'over': None if st.get('over') is None else [st['over']]})
+            if st.get('impl') != 'real':
+                transparent.add(st['name'])
+    chain = ['attr_wrapped_view', 'predicated_view'] + [('user:' + n if n in transparent else n) for n in impl['sorted']]
+    return {'chain': chain, 'derivers': ops,
+            'pre': [DEFAULT_EXC_VIEW], 'stmts': stmts, 'deny': [list(x) for x in case.get('deny', [])],
             'excsro': [[int(k), v] for k, v in sorted(impl['excsro'].items())],
             'req': req, 'probe': {'kind': case['probe']['kind'], 'secure': bool(case['probe'].get('secure', True))}}
 
@@ -716,13 +764,13 @@ def canon_impl(case, impl):
     out = impl['out']
     if out[0] == 'resp':
         out = ['resp', out[1]]
-    return {'trace': impl['trace'], 'out': out}
+    return {'trace': impl['trace'], 'out': out, 'sorted': impl.get('sorted')}
 
 
 def canon_model(case, rep):
     q = quiet_tags(case)
     tr = [e for e in rep['trace'] if not (e[0] == 'b' and e[1] in q)]
-    return {'trace': tr, 'out': rep['out']}
+    return {'trace': tr, 'out': rep['out'], 'sorted': rep.get('sorted')}
 
 
 # ---------------------------------------------------------------------------------------------------------
@@ -814,11 +862,19 @@ def oracle(case, impl):
         return bad
     if not secure:
         return bad                       # secure=False is the documented bypass; nothing is demanded
+    # did the application itself re-place the decorator layer (or something the documented chain hangs it below)?
+    moved = set()
+    for st in case['stmts']:
+        if st['k'] == 'deriver' and st['name'] in MOVED_WITH:
+            moved.add(st['name'])
+            moved.update(MOVED_WITH[st['name']])
     for i, e in enumerate(tr):
-        if e[0] == 'b' and e[1] in vs:
+        if e[0] in ('b', 'd') and e[1] in vs:
             st = vs[e[1]]
             p = effective_perm(case, st, variant_of(st, e[2]))
             if p is None:
+                continue
+            if e[0] == 'd' and 'decorated_view' in moved:
                 continue
             ok = False
             for j in range(i - 1, -1, -1):
@@ -829,8 +885,8 @@ def oracle(case, impl):
                     ok = True
                     break
             if not ok or (e[2], p) in deny:
-                bad.append(('body of view %d ran in context %d although permits(context %d, permission %d) was not asked-and-granted before it'
-                            % (e[1], e[2], e[2], p), None))
+                bad.append(('%s of view %d ran in context %d although permits(context %d, permission %d) was not asked-and-granted before it'
+                            % ('body' if e[0] == 'b' else 'user decorator code', e[1], e[2], e[2], p), None))
         if e[0] == 'p' and e[3] is False:
             # refusal: nothing of this phase may run afterwards, and the 403 handling takes over
             nxt = tr[i + 1] if i + 1 < len(tr) else None
@@ -954,6 +1010,18 @@ def gen_config(rng, big=False):
         tag += 1
         v['tag'] = tag
         stmts.append(v)
+    r = rng.random()
+    if r < 0.14:
+        # the application REPLACES a built-in deriver by name (the real function re-added, or its own transparent one)
+        name = rng.choice(['csrf_view', 'csrf_view', 'csrf_view', 'owrapped_view', 'http_cached_view', 'decorated_view', 'rendered_view', 'mapped_view'])
+        under, over = rng.choice([('INGRESS', None), ('INGRESS', 'VIEW'), ('INGRESS', 'VIEW'), (None, None),
+                                  ('INGRESS', rng.choice([b for b in BUILTIN_DERIVERS if b != name]))])
+        impl = 'real' if name in ('rendered_view', 'mapped_view') or rng.random() < 0.5 else 'transparent'
+        stmts.append({'k': 'deriver', 'name': name, 'impl': impl, 'under': under, 'over': over})
+    elif r < 0.24:
+        stmts.append({'k': 'deriver', 'name': 'u1', 'impl': 'transparent',
+                      'under': rng.choice([None, 'INGRESS', 'secured_view', 'owrapped_view', 'decorated_view']),
+                      'over': rng.choice([None, 'VIEW', 'rendered_view', 'mapped_view', 'secured_view', 'decorated_view'])})
     rng.shuffle(stmts)
     deny = [[c, p] for c in DENY_CTX for p in (1, 2) if rng.random() < 0.35]
     return {'stmts': stmts, 'deny': deny}
@@ -1020,6 +1088,11 @@ def evaluate(case, module_name, model_reply=None):
         return {'error': '%s: %s' % (type(e).__name__, e)}
     if impl.get('req') is None:
         return {'error': 'request never reached ContextFound'}
+    if (impl['out'] == ['raised', K_OTHER] or ['x', K_OTHER] in impl['trace']) and any(st['k'] == 'deriver' for st in case['stmts']):
+        # the application re-placed built-in derivers so that they no longer fit each other (e.g. rendered_view over
+        # owrapped_view: the wrapper deriver gets the renderer's dict): an AttributeError of the application's own
+        # making, outside the model
+        return {'error': 'unmodelled: re-placed derivers break each other'}
     return {'impl': impl, 'mcase': model_case(case, impl), 'bad': oracle(case, impl)}
 
 
@@ -1069,7 +1142,7 @@ def shrink_case(case, pred):
         if changed:
             continue
         for i, st in enumerate(cur['stmts']):
-            for key in ('decorator', 'renderer', 'wrapper', 'preds', 'route', 'via', 'style', 'how'):
+            for key in ('decorator', 'renderer', 'wrapper', 'preds', 'route', 'via', 'style', 'how', 'vd'):
                 if key in st:
                     st2 = {k: v for k, v in st.items() if k != key}
                     c = dict(cur, stmts=cur['stmts'][:i] + [st2] + cur['stmts'][i + 1:])
@@ -1119,6 +1192,13 @@ def run_stream(ctx, cases, stats, res, label):
             vfutil.bump(stats, 'refusals')
         if any(e[0] == 'x' for e in impl['trace']):
             vfutil.bump(stats, 'exception_phase')
+        for st in case['stmts']:
+            if st['k'] == 'deriver':
+                vfutil.bump(stats, 'deriver_' + ('replace_' + st['name'] if st['name'] in BUILTIN_DERIVERS else 'new'))
+        if impl.get('sorted') != BUILTIN_DERIVERS:
+            vfutil.bump(stats, 'chain_not_default')
+        if any(e[0] == 'd' for e in impl['trace']):
+            vfutil.bump(stats, 'decorator_ran')
         groups = {}
         for st in case['stmts']:
             if st['k'] == 'view' and st.get('dir') != 'static':
@@ -1223,7 +1303,7 @@ def run(ctx):
     run_stream(ctx, corpus, stats, res, 'corpus')
     if ctx.tier == 'thorough':
         # small-scope exhaustive part: every option combination of one view (see small_scope_cases)
-        scope = list(small_scope_cases()) + list(view_defaults_cube())
+        scope = list(small_scope_cases()) + list(view_defaults_cube()) + list(replacement_cube())
         for i in range(0, len(scope), 500):
             run_stream(ctx, scope[i:i + 500], stats, res, 'small-scope')
         res['exhaustive'] = True
@@ -1314,6 +1394,23 @@ def view_defaults_cube():
         yield {'stmts': stmts, 'deny': deny, 'probe': {'kind': 'router', 'path': '/', 'params': []}}
 
 
+def replacement_cube():
+    """every built-in deriver (but secured_view) re-placed with each enumerated placement x {real, transparent} x a
+    protected view with decorator + wrapper + renderer x grant / refuse"""
+    for name in BUILTIN_DERIVERS[1:]:
+        places = [('INGRESS', None), (None, None), ('INGRESS', 'VIEW')] + [('INGRESS', m) for m in BUILTIN_DERIVERS if m != name]
+        for (under, over), impl, refuse in itertools.product(places, ['real', 'transparent'], [False, True]):
+            if impl == 'transparent' and name in ('rendered_view', 'mapped_view'):
+                continue
+            stmts = [{'k': 'deriver', 'name': name, 'impl': impl, 'under': under, 'over': over},
+                     {'k': 'view', 'dir': 'view', 'tag': 1, 'name': '', 'ctx': None, 'perm': 'p1', 'kind': 'class2', 'act': 'ok',
+                      'decorator': True, 'wrapper': 'w1', 'renderer': 'json'},
+                     {'k': 'view', 'dir': 'view', 'tag': 2, 'name': 'w1', 'ctx': None, 'perm': None, 'kind': 'func1', 'decorator': True},
+                     {'k': 'policy', 'how': 'security'}]
+            deny = [[c, p] for c in DENY_CTX for p in (1, 2)] if refuse else []
+            yield {'stmts': stmts, 'deny': deny, 'probe': {'kind': 'router', 'path': '/', 'params': []}}
+
+
 def search(ctx):
     """after a break: evaluate the property oracle on the implementation only (corpus, the small-scope
     enumeration, then a random stream at thorough volume)"""
@@ -1336,6 +1433,7 @@ def search(ctx):
     scan([c for _, c in ctx.corpus()])
     scan(small_scope_cases())
     scan(view_defaults_cube())
+    scan(replacement_cube())
     exhaustive = ctx.time_left() >= 45
     if not [v for v in viol if not v.get('finding')]:
         scan(gen_cases(ctx.rng, ctx.n(1500, 6000), 3, big=True))
